@@ -1,4 +1,248 @@
-(* C04_Proofs.v — proofs about the scheduler model (being written; see notes/C04.md). *)
-From Coq Require Import ZArith List.
-From PV Require Import Base.U64 C04.C04_Heap Sched.Core Sched.Prog.
-Lemma placeholder : True. Proof. exact I. Qed.
+(* C04_Proofs.v — the contract theorems of C04 over ALL programs of the core op language and all
+   run lengths of the cooperative scheduler model (Sched/Core.v, Sched/Prog.v), derived from the
+   inductive invariant GI /\ TI (C04_Inv.v, C04_Step.v, C04_Step2.v); and the two refutations. *)
+From Coq Require Import ZArith List Bool Arith Lia Permutation.
+From PV Require Import Base.U64 C04.C04_Heap C04.C04_HeapProofs Sched.Core Sched.Prog Sched.Lemmas
+                       Sched.Invariant Sched.Effects C04.C04_Inv C04.C04_Good C04.C04_Step C04.C04_Step2.
+Import ListNotations.
+Local Open Scope Z_scope.
+
+(* ---- programs, runs ------------------------------------------------------------------------------ *)
+(* thread_interrupt(th, 0) is thread_resume (thread.h 135-138): it ends a sleep early with result 0
+   by design, so the contract is stated for programs whose interrupts carry a non-zero errno *)
+Definition NZ_progs (ps : list (list core_op)) : Prop :=
+  forall t pc k e, nth_error (nth t ps []) pc = Some (OInterrupt k e) -> e <> 0.
+
+Definition run_state (fuel : nat) (ps : list (list core_op)) : cstate :=
+  coop_run no_prim (core_progs ps) fuel (init_state (length (core_progs ps)) VCLOCK_START tt).
+
+(* the trace, oldest event first (what harness/E2 prints) *)
+Definition run_trace (fuel : nat) (ps : list (list core_op)) : list event := rev (s_trace (run_state fuel ps)).
+
+Definition ev_cop (ps : list (list core_op)) (ev : event) : option core_op :=
+  nth_error (nth (ev_tid ev) ps []) (ev_pc ev).
+
+Lemma prog_of_core ps t : prog_of (core_progs ps) t = map OCore (nth t ps []).
+Proof. unfold prog_of, core_progs. change (@nil (op no_op)) with (map (@OCore no_op) []). apply map_nth. Qed.
+
+Lemma ev_op_core ps ev c : ev_cop ps ev = Some c -> ev_op (core_progs ps) ev = Some (OCore c).
+Proof. unfold ev_cop, ev_op. rewrite prog_of_core. intros H. rewrite nth_error_map, H. reflexivity. Qed.
+
+Lemma ev_op_core_inv ps ev c : ev_op (core_progs ps) ev = Some (OCore c) -> ev_cop ps ev = Some c.
+Proof.
+  unfold ev_cop, ev_op. rewrite prog_of_core, nth_error_map.
+  destruct (nth_error (nth (ev_tid ev) ps []) (ev_pc ev)); simpl; congruence.
+Qed.
+
+Lemma NZ_core ps : NZ_progs ps ->
+  forall t pc k e, nth_error (prog_of (core_progs ps) t) pc = Some (OCore (OInterrupt k e)) -> e <> 0.
+Proof.
+  intros H t pc k e. rewrite prog_of_core, nth_error_map.
+  destruct (nth_error (nth t ps []) pc) eqn:E; simpl; [|discriminate]. intros [= ->]. eapply H; eauto.
+Qed.
+
+(* ---- the initial state satisfies the invariant ------------------------------------------------------ *)
+Section INIT.
+  Variable ps : list (list core_op).
+  Hypothesis Hne : ps <> [].
+  Let progs := core_progs ps.
+  Let n := length progs.
+  Let st0 : cstate := init_state n VCLOCK_START tt.
+  Let mainT := mkThread RUNNING 0 None 0 false false 0 0 [] VCLOCK_START false 0 false false.
+  Let idlT := mkThread READY 0 None 0 true false 0 0 [] VCLOCK_START false 0 false false.
+
+  Lemma n_pos : (1 <= n)%nat.
+  Proof. unfold n, progs, core_progs. rewrite map_length. destruct ps; [congruence|simpl; lia]. Qed.
+
+  Lemma getth_init u :
+    getth st0 u = if Nat.eqb u 0 then mainT else if Nat.eqb u n then idlT else thread0.
+  Proof.
+    pose proof n_pos as Hn. unfold st0, init_state, getth. cbn [s_threads].
+    destruct u as [|u]; [reflexivity|]. change (Nat.eqb (S u) 0) with false. cbv iota. cbn [nth].
+    destruct (Nat.eqb_spec (S u) n) as [E|E].
+    - rewrite app_nth2 by (rewrite repeat_length; lia). rewrite repeat_length.
+      replace (u - (n - 1))%nat with 0%nat by lia. reflexivity.
+    - destruct (Nat.ltb_spec u (n - 1)).
+      + rewrite app_nth1 by (rewrite repeat_length; lia). apply nth_repeat.
+      + apply nth_overflow. rewrite app_length, repeat_length. simpl. lia.
+  Qed.
+
+  Lemma nthreads_init : nthreads st0 = S n.
+  Proof. pose proof n_pos. unfold nthreads, st0, init_state. cbn [s_threads length]. rewrite app_length, repeat_length. simpl. lia. Qed.
+
+  Lemma idler_init : idler_tid st0 = n.
+  Proof. unfold idler_tid. fold (nthreads st0). rewrite nthreads_init. lia. Qed.
+
+  Lemma state_init u : th_state (getth st0 u) <> SLEEPING /\ th_waitq (getth st0 u) = None /\ th_k (getth st0 u) = [] /\
+                       th_err (getth st0 u) = 0 /\ 0 <= th_issued (getth st0 u) <= VCLOCK_START.
+  Proof.
+    rewrite getth_init. destruct (Nat.eqb u 0); [|destruct (Nat.eqb u n)]; simpl; repeat split; try discriminate; unfold VCLOCK_START; lia.
+  Qed.
+
+  Lemma init_WF : WF st0.
+  Proof.
+    pose proof n_pos as Hn.
+    constructor.
+    - unfold st0, init_state. cbn [s_runq]. constructor; [simpl; intros [X|[]]; lia|constructor; [intros []|constructor]].
+    - intros u Hu. unfold st0, init_state in Hu. cbn [s_runq] in Hu. rewrite getth_init.
+      destruct Hu as [<-|[<-|[]]].
+      + simpl. split; discriminate.
+      + destruct (Nat.eqb_spec n 0); [lia|]. rewrite Nat.eqb_refl. simpl. split; discriminate.
+    - rewrite idler_init. unfold st0, init_state. cbn [s_runq]. right; left; reflexivity.
+    - apply Inv_empty.
+    - intros u. split; [intros []|]. intros X. exfalso. apply (proj1 (state_init u)). exact X.
+    - reflexivity.
+    - intros q u [].
+    - intros u q X. rewrite (proj1 (proj2 (state_init u))) in X. discriminate.
+    - intros q. constructor.
+    - simpl. lia.
+  Qed.
+
+  Lemma init_GI : GI progs st0.
+  Proof.
+    pose proof n_pos as Hn.
+    constructor.
+    - exact init_WF.
+    - exact nthreads_init.
+    - left. reflexivity.
+    - simpl. unfold VCLOCK_START, MAX64. lia.
+    - simpl. unfold VCLOCK_START. lia.
+    - intros u. rewrite getth_init. unfold st0, init_state. cbn [s_runq].
+      destruct (Nat.eqb_spec u 0) as [->|]; [intros _; left; reflexivity|].
+      destruct (Nat.eqb_spec u n) as [->|]; [intros _; right; left; reflexivity|].
+      simpl. intros [X|X]; discriminate.
+    - intros u Hu. destruct (state_init u) as (S1 & S2 & S3 & S4 & S5).
+      constructor.
+      + exact S5.
+      + intros X. contradiction.
+      + intros d _. rewrite S3. split; [left; reflexivity|]. split; [intros X; discriminate|split; intros X; discriminate].
+      + intros X. contradiction.
+      + intros q X. rewrite S2 in X. discriminate.
+      + intros X. contradiction.
+      + intros _ _. exact S3.
+    - rewrite idler_init. apply (proj1 (state_init n)).
+  Qed.
+
+  Lemma init_TI : TI progs st0.
+  Proof. intros ev []. Qed.
+End INIT.
+
+Lemma run_GI_TI fuel ps : ps <> [] -> NZ_progs ps ->
+  GI (core_progs ps) (run_state fuel ps) /\ TI (core_progs ps) (run_state fuel ps).
+Proof.
+  intros Hne Hnz. unfold run_state. apply run_inv.
+  - apply NZ_core; exact Hnz.
+  - apply init_GI; exact Hne.
+  - apply init_TI.
+Qed.
+
+(* ---- the contract theorems, about every event of every run of every program ------------------------- *)
+Section CONTRACT.
+  Variables (ps : list (list core_op)) (fuel : nat) (ev : event) (d : Z).
+  Hypothesis Hne : ps <> [].
+  Hypothesis Hnz : NZ_progs ps.
+  Hypothesis Hin : In ev (s_trace (run_state fuel ps)).
+  Hypothesis Hop : ev_cop ps ev = Some (OUsleep d).
+
+  Let exp := timeout_of (ev_issued ev) d.
+
+  Lemma usleep_event_facts :
+    0 <= ev_issued ev <= ev_time ev /\
+    (ev_k ev = [1] \/ ev_k ev = [2] \/ ev_k ev = [3]) /\
+    (ev_k ev = [1] ->
+       ev_shut ev = false /\ expired (ev_issued ev) exp = false /\
+       ((ev_ret ev = 0 /\ ev_err ev = 0 /\ ev_time ev = exp) \/
+        (ev_ret ev = -1 /\ ev_err ev <> 0 /\ ev_time ev <= exp /\
+         src_ok (core_progs ps) (s_trace (run_state fuel ps)) (ev_tid ev) (ev_err ev) (ev_src ev)))) /\
+    (ev_k ev = [2] ->
+       expired (ev_issued ev) exp = true /\
+       ((ev_ret ev = 0 /\ ev_err ev = 0) \/
+        (ev_ret ev = -1 /\ ev_err ev <> 0 /\
+         src_ok (core_progs ps) (s_trace (run_state fuel ps)) (ev_tid ev) (ev_err ev) (ev_src ev)))) /\
+    (ev_k ev = [3] ->
+       ev_shut ev = true /\ expired (ev_issued ev) exp = false /\ ev_ret ev = -1 /\
+       ev_time ev <= ev_issued ev + SHUTDOWN_CAP /\
+       (ev_err ev = EPERM \/
+        (ev_err ev <> 0 /\ src_ok (core_progs ps) (s_trace (run_state fuel ps)) (ev_tid ev) (ev_err ev) (ev_src ev)))).
+  Proof.
+    destruct (run_GI_TI fuel ps Hne Hnz) as (_ & T). destruct (T ev Hin) as (A & B & _).
+    split; [exact A|]. exact (B d (ev_op_core ps ev _ Hop)).
+  Qed.
+
+  (* thread_usleep returns only 0 or -1 *)
+  Lemma usleep_ret_0_or_m1 : ev_ret ev = 0 \/ ev_ret ev = -1.
+  Proof.
+    destruct usleep_event_facts as (_ & K & C1 & C2 & C3).
+    destruct K as [K|[K|K]].
+    - destruct (C1 K) as (_ & _ & [(X & _)|(X & _)]); auto.
+    - destruct (C2 K) as (_ & [(X & _)|(X & _)]); auto.
+    - destruct (C3 K) as (_ & _ & X & _); auto.
+  Qed.
+
+  (* A usleep that returns 0 returned exactly AT its deadline (virtual time passes only while the
+     vCPU is idle, and then exactly up to the next deadline) — or its timeout was already expired
+     when it was called (zero timeout), in which case it only yielded. *)
+  Lemma sleep_zero_means_elapsed_lemma :
+    ev_ret ev = 0 ->
+    (expired (ev_issued ev) exp = false /\ ev_time ev = exp) \/
+    (expired (ev_issued ev) exp = true /\ ev_issued ev <= ev_time ev).
+  Proof.
+    intros Hr. destruct usleep_event_facts as (A & K & C1 & C2 & C3).
+    destruct K as [K|[K|K]].
+    - destruct (C1 K) as (_ & E & [(_ & _ & X)|(X & _)]); [left; auto|lia].
+    - destruct (C2 K) as (E & _). right. split; [exact E|lia].
+    - destruct (C3 K) as (_ & _ & X & _). lia.
+  Qed.
+
+  (* in terms of elapsed time: at least (in virtual time: exactly) the requested duration *)
+  Lemma sleep_zero_elapsed_lemma :
+    ev_ret ev = 0 -> 0 <= d -> ev_issued ev + d <= MAX64 -> ev_time ev - ev_issued ev >= d.
+  Proof.
+    intros Hr Hd Hsat. destruct usleep_event_facts as (A & _).
+    assert (Hexp : exp = if d =? 0 then 0 else ev_issued ev + d).
+    { unfold exp, timeout_of. destruct (d =? 0); auto. unfold sat_add.
+      destruct (MAX64 <? ev_issued ev + d) eqn:E; [apply Z.ltb_lt in E; lia|reflexivity]. }
+    destruct (sleep_zero_means_elapsed_lemma Hr) as [(E & X)|(E & X)].
+    - rewrite Hexp in X. destruct (d =? 0) eqn:D; [apply Z.eqb_eq in D|]; lia.
+    - destruct (d =? 0) eqn:D; [apply Z.eqb_eq in D; lia|apply Z.eqb_neq in D].
+      unfold expired in E. rewrite Hexp in E. apply orb_true_iff in E.
+      destruct E as [E|E]; [apply Z.eqb_eq in E|apply Z.leb_le in E]; lia.
+  Qed.
+
+  (* A usleep that returns -1 reports, in errno, an error_number that a completed
+     thread_interrupt(self, errno) / thread_shutdown(self) wrote (the event at index ev_src of the
+     trace), or it is the 10 ms cap of a thread marked by thread_shutdown (EPERM). *)
+  Lemma sleep_minus1_means_interrupted_lemma :
+    ev_ret ev = -1 ->
+    (ev_err ev <> 0 /\
+     exists ev', nth_error (run_trace fuel ps) (ev_src ev) = Some ev' /\ ev_ret ev' = 0 /\
+                 (ev_cop ps ev' = Some (OInterrupt (ev_tid ev) (ev_err ev)) \/
+                  (exists f, ev_cop ps ev' = Some (OShutdown (ev_tid ev) f) /\ ev_err ev = EPERM))) \/
+    (ev_shut ev = true /\ ev_err ev = EPERM /\ ev_k ev = [3]).
+  Proof.
+    intros Hr. destruct usleep_event_facts as (A & K & C1 & C2 & C3).
+    assert (S : forall e, e <> 0 -> src_ok (core_progs ps) (s_trace (run_state fuel ps)) (ev_tid ev) e (ev_src ev) ->
+                e <> 0 /\ exists ev', nth_error (run_trace fuel ps) (ev_src ev) = Some ev' /\ ev_ret ev' = 0 /\
+                 (ev_cop ps ev' = Some (OInterrupt (ev_tid ev) e) \/
+                  (exists f, ev_cop ps ev' = Some (OShutdown (ev_tid ev) f) /\ e = EPERM))).
+    { intros e He (ev' & Hn & Hr' & Hd). split; auto. exists ev'. split; [exact Hn|]. split; [exact Hr'|].
+      destruct Hd as [X|(f & X & Y)]; [left; apply ev_op_core_inv; exact X|right; exists f; split; [apply ev_op_core_inv; exact X|exact Y]]. }
+    destruct K as [K|[K|K]].
+    - destruct (C1 K) as (_ & _ & [(X & _)|(_ & E & _ & X)]); [lia|left; apply S; auto].
+    - destruct (C2 K) as (_ & [(X & _)|(_ & E & X)]); [lia|left; apply S; auto].
+    - destruct (C3 K) as (Sh & _ & _ & _ & [X|(E & X)]); [right; auto|left; apply S; auto].
+  Qed.
+
+  (* A thread marked by thread_shutdown when it calls thread_usleep with a timeout that has not
+     expired gets -1 back within 10 ms. *)
+  Lemma shutdown_bound_usleep_lemma :
+    ev_shut ev = true -> expired (ev_issued ev) exp = false ->
+    ev_ret ev = -1 /\ ev_time ev <= ev_issued ev + SHUTDOWN_CAP.
+  Proof.
+    intros Hs He. destruct usleep_event_facts as (A & K & C1 & C2 & C3).
+    destruct K as [K|[K|K]].
+    - destruct (C1 K) as (X & _). congruence.
+    - destruct (C2 K) as (X & _). congruence.
+    - destruct (C3 K) as (_ & _ & X & Y & _). auto.
+  Qed.
+End CONTRACT.
